@@ -151,15 +151,33 @@ def run(ctx):
                 want = {("./" + n["rel"]).encode() for n in snap.nodes if a <= n["size"] <= b}
                 if set(impl["out"].split(b"\0")[:-1]) != want:
                     ctx.oracle_fail("BETWEEN is not inclusive at both ends", {"argv": [query], "tree": [n["rel"] for n in snap.nodes][:50]})
-            for c1, c2, f in [("size", "hardlinks", lambda n: n["size"] > n["nlink"]), ("uid", "gid", lambda n: n["uid"] == n["gid"]),
-                              ("length(name)", "hardlinks", lambda n: len(n["name"]) >= n["nlink"])]:
-                opx = {"size": ">", "uid": "=", "length(name)": ">="}[c1]
+            # … also when the right-hand side is computed from other attributes of the same entry
+            for c1, opx, c2, f in [("size", ">", "hardlinks", lambda n: n["size"] > n["nlink"]), ("uid", "=", "gid", lambda n: n["uid"] == n["gid"]),
+                                   ("length(name)", ">=", "hardlinks", lambda n: len(n["name"]) >= n["nlink"]),
+                                   ("size", "=", "length(name)", lambda n: n["size"] == len(n["name"])),
+                                   ("size", "<", "length(name)", lambda n: n["size"] < len(n["name"])),
+                                   ("hardlinks", "<", "length(name)", lambda n: n["nlink"] < len(n["name"])),
+                                   ("size", ">", "hardlinks * 2", lambda n: n["size"] > n["nlink"] * 2),
+                                   ("size", "<=", "length(name) + hardlinks", lambda n: n["size"] <= len(n["name"]) + n["nlink"])]:
                 query = "path from . where %s %s %s into list" % (c1, opx, c2)
                 ctx.case((t, query))
                 m, impl = corr.run_case(ctx, snap, [query], fmt="list", ncols=1)
                 want = {("./" + n["rel"]).encode() for n in snap.nodes if f(n)}
                 if set(impl["out"].split(b"\0")[:-1]) != want:
                     ctx.oracle_fail("column OP column does not compare the two attributes of the entry", {"argv": [query], "tree": [n["rel"] for n in snap.nodes][:50]})
+            # literals beyond the signed 64-bit range still compare numerically (they are larger than any size)
+            for lit, val in [("9223372036854775808", 2 ** 63), ("18446744073709551615", 2 ** 64 - 1), ("9999999t", 9999999 * 2 ** 40),
+                             ("9223372036854775807", 2 ** 63 - 1)]:
+                opx = r.choice(["<", "<=", ">", ">=", "=", "!="])
+                query = "path from . where size %s %s into list" % (opx, lit)
+                ctx.case((t, query))
+                m, impl = corr.run_case(ctx, snap, [query], fmt="list", ncols=1)
+                f = {"<": lambda a: a < val, "<=": lambda a: a <= val, ">": lambda a: a > val, ">=": lambda a: a >= val,
+                     "=": lambda a: a == val, "!=": lambda a: a != val}[opx]
+                want = {("./" + n["rel"]).encode() for n in snap.nodes if f(n["size"])}
+                if impl["status"] != 0 or set(impl["out"].split(b"\0")[:-1]) != want:
+                    ctx.oracle_fail("a numeric literal beyond the signed 64-bit range does not compare numerically", {"argv": [query], "tree": [n["rel"] for n in snap.nodes][:50]},
+                                    detail={"rows": impl["out"].count(b"\0"), "expected_rows": len(want), "status": impl["status"]})
             common.rm_tree(snap.root)
         ctx.stats["constant_atom_fraction"] = round(consts / max(total, 1), 3)
     finally:
